@@ -85,7 +85,12 @@ func genDefinition(r *vlib.Rng) genDef {
 			off = 1<<32 - 1
 			dyn = r.Chance(1, 2)
 		case 10:
-			off = []uint64{1 << 32, 1 << 63, 1<<64 - 1}[r.Intn(3)] // invalid
+			// invalid; the last ones are offsets whose byte/bit position wraps around in 64 bits onto
+			// a small data word
+			off = []uint64{
+				1 << 32, 1 << 63, 1<<64 - 1, 1<<32 + 4 + uint64(r.Intn(5)),
+				4 + uint64(1+r.Intn(31))<<59 + uint64(r.Intn(5)), 4 + uint64(1+r.Intn(255))<<56 + uint64(r.Intn(5)),
+			}[r.Intn(6)]
 			dyn = r.Chance(1, 2)
 		default:
 			off = uint64(r.Intn(4))
@@ -237,6 +242,16 @@ func logsFor(r *vlib.Rng, d genDef, n int) []genLog {
 			// far offset: data cannot reach it
 			l.Data = r.Bytes([]int{0, 32, 320}[r.Intn(3)])
 			shape += "far-offset"
+			// a value the predicate accepts at the word the far offset would alias to if its position
+			// were computed in too few bits
+			if at := int(w&7) * 32; len(l.Data) >= at+32 && !p.Dynamic && r.Chance(3, 4) {
+				if p.Op == 5 && len(p.Bytes) == 32 {
+					copy(l.Data[at:], p.Bytes)
+				} else if p.Op != 5 && p.Int != nil && p.Int.Sign() >= 0 && p.Int.BitLen() <= 256 {
+					copy(l.Data[at:], common.BigToHash(p.Int).Bytes())
+				}
+				shape += "-alias"
+			}
 			out = append(out, genLog{l, shape})
 			continue
 		}
